@@ -81,7 +81,18 @@ def run(ck):
         kobj.bandwidth = L
         ck.count('effective bandwidth != constructed' if rebw else 'effective bandwidth == constructed')
         with xr.quiet():
-            G = kobj.get_function_grads(T(X), T(Z), T(coefs), None if mat is None else T(mat)).double().numpy()      # (f, nz, d)
+            if i % 4 == 1:
+                # history: the same kernel object has already differentiated against OTHER centers / another transform held in the very same tensors, which are then
+                # updated in place (x.copy_, mat.copy_): the gradient is a function of the current contents
+                Xt_ = T(X + rng.standard_normal(X.shape)); mt_ = None if mat is None else T(np.asarray(mat) * 1.7)
+                kobj.get_function_grads(Xt_, T(Z), T(coefs), mt_)
+                Xt_.copy_(T(X))
+                if mt_ is not None:
+                    mt_.copy_(T(mat))
+                G = kobj.get_function_grads(Xt_, T(Z), T(coefs), mt_).double().numpy()
+                ck.count('gradient after an in-place update of the same tensors')
+            else:
+                G = kobj.get_function_grads(T(X), T(Z), T(coefs), None if mat is None else T(mat)).double().numpy()      # (f, nz, d)
         desc = dict(i=i, kernel=kn, d=d, nx=nx, nz=nz, f=f, L=L, constructed_L=L * (1.7 if rebw else 1.0), p=p, q=q, transform=tk, coincide=coincide, seed=ck.seed)
         ck.case(dict(desc, X=X.tolist(), Z=Z.tolist()), nontrivial=(f >= 2 or tk != 'none'), sample=(i == 7))
         ck.count(f'kernel={kn}'); ck.count(f'outputs={f}'); ck.count(f'transform={tk}'); ck.count('coincident' if coincide else 'general')
